@@ -9,6 +9,7 @@ import (
 	"net/http/httptest"
 	"sort"
 	"strings"
+	"time"
 
 	"google.golang.org/grpc"
 	"google.golang.org/grpc/codes"
@@ -37,6 +38,7 @@ type c14Env struct {
 	hdr      metadata.MD
 	trl      metadata.MD
 	fail     bool
+	late     bool // the handler waits for the end of its context before it sets its metadata
 	// C14S: the handler's own, long-lived metadata objects, handed to SetHeader / SendHeader as they are
 	steps []c14Step
 }
@@ -120,6 +122,13 @@ func c14Setup() *c14Env {
 			}
 			if err != nil {
 				return nil, status.Error(codes.Internal, "header step: "+err.Error())
+			}
+		}
+		if e.late {
+			// the handler reports in its header after the call's deadline has passed (next to the error it returns)
+			select {
+			case <-ctx.Done():
+			case <-time.After(2 * time.Second):
 			}
 		}
 		if e.hdr != nil {
@@ -250,6 +259,16 @@ func webTrailers(body []byte) map[string][]string {
 
 func c14Call(proto_ string, hdrs map[string][]string) (hdr, trl map[string][]string, panicked bool) {
 	e := c14env
+	if p, ok := strings.CutSuffix(proto_, "+l"); ok {
+		// the call carries a short grpc-timeout and the handler outlives it
+		proto_, e.late = p, true
+		defer func() { e.late = false }()
+		h2 := map[string][]string{"Grpc-Timeout": {"20m"}}
+		for k, v := range hdrs {
+			h2[k] = v
+		}
+		hdrs = h2
+	}
 	e.mux = e.muxPlain
 	if strings.HasSuffix(proto_, "+s") {
 		e.mux = e.muxStats
@@ -449,6 +468,13 @@ func c14Gen(o *out, r *rng, tier string) {
 			v = []string{string([]byte{0, 1, 0xff})}
 		}
 		emitO("bodywriter", false, map[string][]string{k: v}, nil, "httpbody-writer")
+	}
+	for _, k := range outKeys {
+		v := []string{"v1", "v2"}
+		if strings.HasSuffix(k, "-bin") {
+			v = []string{string([]byte{0, 1, 0xff})}
+		}
+		emitO("grpc+l", true, map[string][]string{k: v}, map[string][]string{"x-t": {"t"}}, "header-set-after-the-deadline")
 	}
 	for _, p := range protos {
 		for _, inj := range []string{"bye\r\ngrpc-status: 13", "a\ngrpc-message: forged", "x\r\nx-other: y"} {
